@@ -507,6 +507,10 @@ func fieldAlt(f *schema_j5pb.Field) FTy {
 	switch t := f.Type.(type) {
 	case *schema_j5pb.Field_Object:
 		if r := t.Object.GetRef(); r != nil {
+			if t.Object.Flatten {
+				// a flattened object reference: the client merges the referenced object's properties (model: TRef "flatten")
+				return FTy{Alt: "flatten", Pkg: r.Package, Name: r.Schema}
+			}
 			return FTy{Alt: alt, Pkg: r.Package, Name: r.Schema}
 		}
 		return FTy{Alt: "inline-object"}
